@@ -76,6 +76,12 @@ def pure_half(tier, rep):
         rep.violation("panic:%s" % pn.get("location"), pn)
 
 
+def refusal(st):
+    """'refused' / 'never relayed': the statement does not name the status; any HTTP error status is a refusal (the absence of
+    relaying is observed separately, at the mock hosts)"""
+    return isinstance(st, int) and 400 <= st < 600
+
+
 def worker(args, scratch):
     r = common.rng("c03-e2e", args["shard"], args["tier"])
     w = wproxy.World(scratch)
@@ -159,18 +165,24 @@ def worker(args, scratch):
                     ev0 = len(wproxy.standin.events(w.vdir))
                 conn = w.open(dest, ident)
                 body = gen_http.body(r, 300) if method in ("POST", "PUT", "PATCH") else b""
-                status = None
+                status, marked = None, False
                 nreq = r.choice([1, 1, 2, 4]) if kind in ("ne-ws", "ne-hga", "self") else 1
                 for k in range(nreq):
                     # several requests on one keep-alive connection: every one of them must be refused, not only the first
                     conn.send(rawhttp.build_request(method, target, gen_http.headers(r) + [("x-vf-id", vid)], body))
                     try:
-                        st = conn.read_response(method.encode()).status
+                        resp = conn.read_response(method.encode())
+                        st = resp.status
+                        marked = marked or resp.header(b"x-ms-azure-host-authorization") is not None
                     except Exception as e:  # noqa
                         st = "error:%r" % (e,)
-                    if status is None or st != 403:
+                        if k > 0 and not common.is_timeout(st):
+                            # the agent closed the connection after refusing the previous request: a refusal as well
+                            cnt["connection_closed_after_refusal"] = cnt.get("connection_closed_after_refusal", 0) + 1
+                            break
+                    if status is None or not refusal(st):
                         status = st
-                    if st != 403:
+                    if not refusal(st):
                         break
                 if nreq > 1:
                     cnt["keepalive_refusal_sequences"] = cnt.get("keepalive_refusal_sequences", 0) + 1
@@ -186,8 +198,13 @@ def worker(args, scratch):
                 if kind in ("ne-ws", "ne-hga", "self"):
                     if ups or any(m.raw_contains(vid.encode()) for m in w.mocks.values()):
                         res["violations"].append(["e2e-%s-relayed" % kind, wit])
-                    if status != 403:
+                    if not refusal(status):
                         res["violations"].append(["e2e-%s-status" % kind, wit])
+                    elif status != 403:
+                        cnt["refused_with_a_status_other_than_403"] = cnt.get("refused_with_a_status_other_than_403", 0) + 1
+                    if kind == "self" and marked:
+                        # the marker the agent puts on every response it relays: the refusal is that of an inner hop, the request was sent on
+                        res["violations"].append(["e2e-self-relayed", dict(wit, note="response carries the relay marker x-ms-azure-host-authorization")])
                     res["nontrivial"].append(common.sha([kind, ident.user, pol, args["shard"]]))
                     if kind == "self":
                         evs = wproxy.standin.events(w.vdir)[ev0:]
